@@ -9,3 +9,10 @@ package main
 //@   deferred-handler
 //@   ensures $recovered ==> $exited && $exitcode != 0
 //@   modifies *
+
+// main: a failing compilation ends the process with a non-zero status.
+// (maypanic: in THRIFTGO_DEBUG mode main asserts that the profile files can be created, before the handler is installed.)
+//@ func main()
+//@   maypanic
+//@   modifies *
+//@   ensures ncalls("sdk.InvokeThriftgo") >= 1 && callret("sdk.InvokeThriftgo", 0) != nil ==> $exited && $exitcode != 0
